@@ -16,7 +16,7 @@ the key `x`).  Comparisons with other constants and orderings are keyed by
 their own text (orderings normalised to `<`).
 """
 from .core import AnalysisError
-from .cfront import E, show, ccfg, C_REL
+from .cfront import E, show, ccfg, C_REL, c_assigned
 from .inline import known_names
 
 MAX_PATHS = 60000
@@ -155,6 +155,81 @@ def canon_test(t, lab):
             return show(mk('bin', '<', b, a)), not truth
         return show(mk('bin', '<', a, b)), not truth
     return show(t), truth
+
+
+_NN_CACHE = {}
+
+
+def nonnull_params(unit):
+    """{function: set of pointer parameters that are non-NULL at every call
+    site inside the unit}.  A function that is only reachable through a method
+    table gets nothing beyond `self`."""
+    key = id(unit)
+    if key in _NN_CACHE:
+        return _NN_CACHE[key]
+    from .cfront import calls as _calls_in
+    funcs = unit.funcs
+    sites = {}          # callee -> [(caller, [arg E])]
+    required = {}       # caller -> set of locals parsed as required arguments
+    for name, f in funcs.items():
+        g = ccfg(f)
+        req = set()
+        for n in g.nodes:
+            if n.e is None:
+                continue
+            for c in _calls_in(n.e):
+                cn = c.a[0]
+                if not isinstance(cn, str):
+                    continue
+                if cn in ('PyArg_ParseTupleAndKeywords', 'PyArg_ParseTuple'):
+                    args = c.a[1]
+                    fmt_i = 2 if cn == 'PyArg_ParseTupleAndKeywords' else 1
+                    if len(args) > fmt_i and args[fmt_i] is not None and \
+                            args[fmt_i].k == 'str':
+                        fmt = str(args[fmt_i].a[0]).strip('"').split(':')[0].split(';')[0]
+                        nreq = len(fmt.split('|')[0].replace('$', ''))
+                        outs = args[fmt_i + (2 if cn == 'PyArg_ParseTupleAndKeywords' else 1):]
+                        for a in outs[:nreq]:
+                            if a is not None and a.k == 'addr' and a.a[0] is not None \
+                                    and a.a[0].k == 'var':
+                                req.add(a.a[0].a[0])
+                elif cn in funcs:
+                    sites.setdefault(cn, []).append((name, c.a[1]))
+        required[name] = req
+    nn = {name: ({'self'} & {p for p, t in f.params}) for name, f in funcs.items()}
+    singles = ('Py_None', 'Py_True', 'Py_False', 'Py_NotImplemented')
+    changed = True
+    while changed:
+        changed = False
+        for callee, ss in sites.items():
+            f = funcs[callee]
+            for k, (p, t) in enumerate(f.params):
+                if '*' not in t or p in nn[callee]:
+                    continue
+                ok = True
+                for caller, args in ss:
+                    if k >= len(args) or args[k] is None:
+                        ok = False
+                        break
+                    a = args[k]
+                    if a.k == 'addr':
+                        continue
+                    if a.k == 'var' and (a.a[0] in singles or a.a[0] in nn[caller] or
+                                         (a.a[0] in required[caller] and not any(
+                                             a.a[0] in c_assigned(n) and n.e.k != 'decl'
+                                             and not any(isinstance(c_.a[0], str) and
+                                                         c_.a[0].startswith('PyArg_Parse')
+                                                         for c_ in _calls_in(n.e))
+                                             for n in ccfg(funcs[caller]).nodes
+                                             if n.e is not None))):
+                        continue
+                    ok = False
+                    break
+                if ok:
+                    nn[callee].add(p)
+                    changed = True
+    _NN_CACHE[key] = nn
+    return nn
 
 
 def has_call(e):
@@ -598,6 +673,10 @@ class Summariser:
         init = _State()
         for p, _t in f.params:
             init.ver[p] = 0
+        # parameters that every caller passes non-NULL (required arguments
+        # parsed from the call, `self`, addresses): `(p == NULL)` is infeasible
+        for p in nonnull_params(self.unit).get(fname, ()):
+            init.facts[p] = True
 
         def rec(n, st, visits):
             if len(out) > MAX_PATHS:
